@@ -162,8 +162,8 @@ func specPlain4(p *packets.FrameParser) bool {
 //@ requires[pre.past]     forall(k, 0, len(t.sentProbes), t.sentProbes[k].sendTime <= now() && t.sentProbes[k].sendTime != 0)
 //@ ensures[C06.append]    ret0 == nil ==> len(t.sentProbes) == old(len(t.sentProbes))+1 && specLast(t).ttl == ttl && specLast(t).sendTime != 0
 // the probe is registered (matchable by the receiver) before it is on the wire: a reply can never overtake its own bookkeeping
-//@ before Sink.WriteTo assert[C02+C05+C06.send.registered] len(t.sentProbes) == old(len(t.sentProbes))+1 && specLast(t).ttl == ttl && specLast(t).sendTime != 0
-//@ ensures[C06.others]    ret0 == nil ==> forall(k, 0, old(len(t.sentProbes)), t.sentProbes[k] == old(t.sentProbes[k]))
+//@ before Sink.WriteTo assert[C01+C02+C05+C06.send.registered] len(t.sentProbes) == old(len(t.sentProbes))+1 && specLast(t).ttl == ttl && specLast(t).sendTime != 0
+//@ ensures[C01+C06.others]    ret0 == nil ==> forall(k, 0, old(len(t.sentProbes)), t.sentProbes[k] == old(t.sentProbes[k]))
 //@ ensures[C05.stamp]     ret0 == nil ==> wrN == old(wrN)+1 && specLast(t).sendTime <= wrClock && specLast(t).sendTime >= old(now())
 //@ ensures[C05.past]      forall(k, 0, len(t.sentProbes), t.sentProbes[k].sendTime <= now() && t.sentProbes[k].sendTime != 0)
 //@ ensures[C06.wire.ttl]  ret0 == nil ==> ghost(ser.ttl) == int(ttl) && ghost(ser.proto) == 6 && ghost(ser.version) == 4
@@ -185,7 +185,7 @@ func specPlain4(p *packets.FrameParser) bool {
 //@ ensures[C09.recv.class]  ret1 != nil && !chain(ret1, *common.ReceiveProbeNoPktError) && !chain(ret1, *common.BadPacketError) ==> ioFail
 //@ ensures[C09.recv.io]     ioFail == old(ioFail) || ret1 != nil
 //@ ensures[C01.recv.fresh]  ret0 != nil ==> fresh(ret0)
-//@ ensures[C09.recv.state]  len(t.sentProbes) == old(len(t.sentProbes)) && forall(k, 0, len(t.sentProbes), t.sentProbes[k] == old(t.sentProbes[k]))
+//@ ensures[C01+C09.recv.state]  len(t.sentProbes) == old(len(t.sentProbes)) && forall(k, 0, len(t.sentProbes), t.sentProbes[k] == old(t.sentProbes[k]))
 //@ modifies t.mu, packets.FrameParser.IP4, packets.FrameParser.IP6, packets.FrameParser.TCP, packets.FrameParser.ICMP4, packets.FrameParser.ICMP6, packets.FrameParser.Payload, packets.FrameParser.Layers, gopacket.DecodingLayerParser, elems(t.buffer), ghost clock, ghost ioFail
 
 // C11 isolation (strict mode, as the runner configures TCP SYN): a packet genuine for two runs forces them to share
